@@ -402,9 +402,10 @@ def alInsert (lt : κ → κ → Bool) (k : κ) (v : α) : List (κ × α) → L
       else if lt k k' then (k, v) :: (k', v') :: r
       else (k', v') :: alInsert lt k v r
 
+/-- `HashMap::remove`: no entry with that key remains -/
 def alErase (k : κ) : List (κ × α) → List (κ × α)
   | [] => []
-  | (k', v) :: r => if k' = k then r else (k', v) :: alErase k r
+  | (k', v) :: r => if k' = k then alErase k r else (k', v) :: alErase k r
 end AL
 
 def strLt (a b : String) : Bool := decide (a < b)
@@ -436,15 +437,8 @@ def PEntry.isZero6 (e : PEntry) : Bool := e.addr.v6 && e.addr.val == 0 && e.mask
 
 /-! ## `parse_community` -/
 
-def isDigitStr (s : String) : Bool := !s.isEmpty && s.toList.all Char.isDigit
-def digitsVal (s : String) : Nat := s.toList.foldl (fun n c => n * 10 + (c.toNat - 48)) 0
-
-/-- `s.parse::<u32>()` : an optional `+`, then one or more digits, value at most `u32::MAX` -/
-def parseU32 (s : String) : Option Nat :=
-  let d := match s.toList with
-    | '+' :: r => String.ofList r
-    | _ => s
-  if isDigitStr d && digitsVal d ≤ 4294967295 then some (digitsVal d) else none
+/-- `s.parse::<u32>()` -/
+def parseU32 (s : String) : Option Nat := decimalU32? s
 
 /-- `Regex::new(r"(\d+.)*\d+:\d+").is_match(s)` : some digit, a colon, a digit -/
 def hasDigitColonDigit : List Char → Bool
@@ -495,15 +489,31 @@ def Elem.isPat : Elem → Bool
   | .pat _ => true
   | _ => false
 
+/-- the mask range of the default-route entries of one request: `none` = two different ranges
+    (`InvalidArgument`), `some none` = no such entry -/
+def zeroRange : List PEntry → Option (Option (Nat × Nat))
+  | [] => some none
+  | e :: r => if r.all (fun x => x.lo == e.lo && x.hi == e.hi) then some (some (e.lo, e.hi)) else none
+
+/-- `table.insert(addr, mask, prefix)` followed by the conflict check: a different range already
+    stored for that prefix is an error (`none`), the same entry again is harmless -/
+def pInsertC (acc : Option (List PEntry)) (e : PEntry) : Option (List PEntry) :=
+  match acc with
+  | none => none
+  | some l =>
+      match pLookup e.key l with
+      | some old => if old.lo == e.lo && old.hi == e.hi then some (pInsert e l) else none
+      | none => some (pInsert e l)
+
 /-- the new contents given to `add_defined_set`, in the shape of a stored set; `none` = a pattern
     did not compile (`InvalidArgument`).  Prefix entries are kept in call order. -/
 def parseElems (env : RegexEnv) (k : SetKind) (elems : List Elem) : Option SetObj :=
   match k with
   | .prefix =>
       let es := elems.filterMap Elem.pfx?
-      let zero := (es.filter PEntry.isZero4).getLast?.map (fun e => (e.lo, e.hi))
-      let zero6 := (es.filter PEntry.isZero6).getLast?.map (fun e => (e.lo, e.hi))
-      some (.prefix (es.filter (fun e => !e.isZero4 && !e.isZero6)) zero zero6)
+      match zeroRange (es.filter PEntry.isZero4), zeroRange (es.filter PEntry.isZero6) with
+      | some zero, some zero6 => some (.prefix (es.filter (fun e => !e.isZero4 && !e.isZero6)) zero zero6)
+      | _, _ => none
   | .neighbor => some (.neighbor (elems.filterMap Elem.nbr?))
   | .aspath =>
       let res := elems.filterMap Elem.pat?
@@ -520,19 +530,26 @@ def SetObj.isEmpty : SetObj → Bool
   | .aspath s r => s.isEmpty && r.isEmpty
   | .strs l => l.isEmpty
 
-/-- a freshly created set from parsed contents (prefix entries go through `insert`) -/
-def SetObj.fresh : SetObj → SetObj
-  | .prefix es z z6 => .prefix (es.foldl (fun acc e => pInsert e acc) []) z z6
-  | s => s
+/-- a freshly created set from parsed contents (prefix entries go through `insert`); `none` = one
+    prefix with two different ranges -/
+def SetObj.fresh : SetObj → Option SetObj
+  | .prefix es z z6 => (es.foldl pInsertC (some [])).map (fun l => .prefix l z z6)
+  | s => some s
 
-/-- `existing` merged with new contents (GoBGP `Append`) -/
-def SetObj.merge (ex new : SetObj) : SetObj :=
+/-- `existing` merged with new contents (GoBGP `Append`); `none` = a prefix (or the default
+    route) would get a second, different range -/
+def SetObj.merge (ex new : SetObj) : Option SetObj :=
   match ex, new with
-  | .prefix es z z6, .prefix ns nz nz6 => .prefix (ns.foldl (fun acc e => pInsert e acc) es) (optOr nz z) (optOr nz6 z6)
-  | .neighbor l, .neighbor n => .neighbor (l ++ n)
-  | .aspath s r, .aspath ns nr => .aspath (s ++ ns) (r ++ nr)
-  | .strs l, .strs n => .strs (l ++ n)
-  | e, _ => e
+  | .prefix es z z6, .prefix ns nz nz6 =>
+      match ns.foldl pInsertC (some es) with
+      | none => none
+      | some l =>
+          if (nz.isSome && z.isSome && nz != z) || (nz6.isSome && z6.isSome && nz6 != z6) then none
+          else some (.prefix l (optOr nz z) (optOr nz6 z6))
+  | .neighbor l, .neighbor n => some (.neighbor (l ++ n))
+  | .aspath s r, .aspath ns nr => some (.aspath (s ++ ns) (r ++ nr))
+  | .strs l, .strs n => some (.strs (l ++ n))
+  | e, _ => some e
 
 def Cond.refersTo (k : SetKind) (name : String) : Cond → Bool
   | .set k' n _ _ => k' == k && n == name
@@ -549,10 +566,16 @@ def Table.addDefinedSet (env : RegexEnv) (t : Table) (k : SetKind) (name : Strin
       match alLookup (k, name) t.sets with
       | none =>
           if new.isEmpty then (t, .invalid)
-          else ({ t with sets := alInsert setKeyLt (k, name) new.fresh t.sets }, .ok)
+          else
+            match new.fresh with
+            | none => (t, .invalid)
+            | some f => ({ t with sets := alInsert setKeyLt (k, name) f t.sets }, .ok)
       | some ex =>
           if setInUse t k name then (t, .inUse)
-          else ({ t with sets := alInsert setKeyLt (k, name) (ex.merge new) t.sets }, .ok)
+          else
+            match ex.merge new with
+            | none => (t, .invalid)
+            | some m => ({ t with sets := alInsert setKeyLt (k, name) m t.sets }, .ok)
 
 /-- `replace_defined_set` : in-use check, remove, then `add_defined_set` (whose failure leaves the
     set removed) -/
@@ -832,11 +855,28 @@ def Cond.cfg : Cond → CondCfg
 
 def Stmt.dump (s : Stmt) : DStmt := ⟨s.name, s.conds.map Cond.cfg, s.disp, s.acts⟩
 def Policy.dump (p : Policy) : DPol := ⟨p.name, p.stmts.map (·.name)⟩
-def Assign.dump (a : Assign) : DAsg := ⟨a.name, a.dflt, a.pols.map (·.name)⟩
+
+def Cond.snap? : Cond → Option SetObj
+  | .set _ _ _ snap => some snap
+  | .plain _ => none
+
+def Cond.isRpki : Cond → Bool
+  | .plain (.rpki _) => true
+  | _ => false
+
+/-- the set objects a statement holds through its conditions -/
+def Stmt.held (s : Stmt) : List SetObj := s.conds.filterMap Cond.snap?
+
+/-- `PolicyAssignment::compute_needs_rpki` -/
+def needsRpki (pols : List Policy) : Bool := pols.any (fun p => p.stmts.any (fun s => s.conds.any Cond.isRpki))
+
+def Assign.dump (a : Assign) : DAsg := ⟨a.name, a.dflt, a.pols.map (·.name), needsRpki a.pols⟩
 
 def Table.dump (t : Table) : Dump :=
   { sets := t.sets, stmts := t.stmts.map (fun s => s.2.dump), pols := t.pols.map (fun p => p.2.dump),
-    imp := t.imp.map Assign.dump, exp := t.exp.map Assign.dump }
+    imp := t.imp.map Assign.dump, exp := t.exp.map Assign.dump,
+    heldSets := t.stmts.map (fun s => s.2.held),
+    heldStmts := t.pols.map (fun p => p.2.stmts.map (fun s => (s.dump, s.held))) }
 
 /-! ## running a case -/
 
